@@ -258,6 +258,9 @@ impl CFormatSpec {
             self.precision
         {
             &bytes[..cmp::min(bytes.len(), precision)]
+        } else if let Some(CFormatPrecision::Dot) = self.precision {
+            // a bare '.' is precision 0, as in format_string
+            &bytes[..0]
         } else {
             bytes
         };
